@@ -1130,13 +1130,18 @@ class C05(PropertyCheck):
             judged = judge_of(case)["elements"]
             for n in range(N):
                 sampled = judged is None or n in judged
-                el = self.element_obs(rec.calls, n, lens_l[n], y, y_lens, probs, V, light=not sampled)
+                # (elements of a large batch that do not go through Lean: the calls are observed without the
+                # extension scores; not at all when that would be millions of cells - such an element is judged by
+                # its result: distinct prefixes, order, no NaN, batched = alone)
+                cheap = N * T <= 2000 and N * T * width * width <= 1000000
+                el = self.element_obs(rec.calls if (sampled or cheap) else [], n, lens_l[n], y, y_lens, probs, V,
+                                      light=not sampled)
                 # the same element searched alone on its own valid frames (other poison value, plain layout);
                 # large batches of long inputs (N * T > 2000 step calls): the sampled elements only
                 ex1 = ()
                 if h0s is not None:
                     ex1 = (lm_initial_state(lm_spec, h0s[n: n + 1]),)
-                if sampled or N * T <= 2000:
+                if sampled or cheap:
                     with poisoned_empty(0), torch.no_grad():
                         ya, la, pa = search(logits.detach()[: lens_l[n], n: n + 1].contiguous(),
                                             None if case["lens"] is None else torch.tensor([lens_l[n]]), *ex1)
@@ -1475,7 +1480,9 @@ class C05(PropertyCheck):
                 o = s["out"]
                 keeps.append([o["prefixes"][k] for k in range(len(o["nb"])) if not isinstance(tot_of(o, k), str)])
             e = {"len": el["len"], "frames": frames, "keeps": keeps, "model": judge["model"],
-                 "topk": case["stream"] == "exact"}
+                 # is the choice of survivors a legitimate top-K of the specification's candidate totals? (needs
+                 # the total of EVERY candidate: skipped for tolerance runs of more than 64 frames)
+                 "topk": case["stream"] == "exact" or n_frames(case) <= 64}
             if el.get("ext_table") is not None:
                 e["ext_table"] = el["ext_table"]
                 self.check_tables(case, el, el["ext_table"], keeps)
@@ -1762,6 +1769,18 @@ class C05(PropertyCheck):
                     if not f["topk_ok"]:
                         fails.append((f"n={n}: the prefixes kept at frame {t} are not the best {wt} candidates "
                                       f"of the prefix-beam recursion", "C05.not_topk"))
+                        break
+            else:
+                # tolerance streams: a dropped candidate may beat a kept one by rounding only
+                for t, f in enumerate(spec["frames"]):
+                    if not f.get("topk_checked"):
+                        continue
+                    wt = widths[t] if widths else width
+                    viol, scale = Fraction(f["topk_viol"]), Fraction(f["topk_scale"])
+                    if viol > tol * scale + floor:
+                        fails.append((f"n={n}: the prefixes kept at frame {t} are not the best {wt} candidates of the "
+                                      f"prefix-beam recursion: a dropped candidate (or a later slot) has {float(viol):.6g} "
+                                      f"more mass than a kept one (largest kept mass {float(scale):.6g})", "C05.not_topk"))
                         break
             # --- the masses of the CALLER'S scores (specification on the exact softmax / fusion of the logits)
             ex = model["elements"][n].get("spec_exact")
